@@ -85,6 +85,17 @@ def literal_constants_closure(prog, fn):
 
 
 def axis_witnesses(tol, consts=()):
+    # values a hair beyond / inside non-zero bounds: a comparison "up to a relative tolerance"
+    # (math.isclose and the like carry their default 1e-09 without any literal in the source)
+    for rel in (Fraction(1, 10 ** 12), Fraction(1, 10 ** 10)):
+        for t in ((0, 1) if tol else (0,)):
+            for l_, u_ in ((Fraction(-3), Fraction(4)), (Fraction(2), Fraction(4))):
+                for b in (l_, u_):
+                    for sg in (-1, 1):
+                        yield {'l': l_, 'u': u_, 't': Fraction(t), 'v': b * (1 + sg * rel)}
+                        if tol:
+                            yield {'l': l_, 'u': u_, 't': Fraction(t),
+                                   'v': (b + (t if b == u_ else -t)) * (1 + sg * rel)}
     for u in (0, 4):
         for t in ((0, 1) if tol else (0,)):
             for k in range(-5, 14):
